@@ -86,10 +86,9 @@ def _(self, exc):
     return k == 'raise' and exc is o and not (isinstance(o, sh.DispatcherError) and isinstance(o.ex, NotImplementedError))
 
 
-@c_cw.canary('canary:any-dispatcher-error-gives-NAME')
+@c_cw.canary('canary:never-NAME')
 def _(self, result):
-    k, o = self.func.calls[0][2]
-    return k == 'return' or result is NAME
+    return result is not NAME
 
 
 # ------------------------------------------------------------------------------------ tables
